@@ -2,7 +2,7 @@
 import re
 from ..flow import chain_blocks, origins
 from ..guards import ne, sh
-from ..mir import parent_fn, show
+from ..mir import norm as mir_norm, parent_fn, show
 from ..panics import label_names
 
 PROMOTE = "runtime::Value::promote"
@@ -87,8 +87,11 @@ def r1_promote_before_store(ctx):
                 lhs = s["lhs"]
                 if rv["k"] == "agg" and rv["adt"].endswith("LocalSlot") and len(rv["ops"]) >= 3:
                     if pid == "runtime::Runtime::eval_function_call":
+                        # A parameter's value may stay on the frame: the slot lives in the callee's own scope and is popped
+                        # before the frame is rewound.  The one way such a value could outlive its storage - an array that
+                        # grows inside a loop body of the callee - is R7's obligation (until D21/D29 was repaired this sink
+                        # demanded a promoted value here, which is more than the property needs).
                         param_binding(ctx, fn, b, rv["ops"][2])
-                        check_sink(ctx, fn, "LocalSlot", b, rv["ops"][2], accepted={PROMOTE}, what="into a parameter slot")
                     else:
                         check_sink(ctx, fn, "LocalSlot", b, rv["ops"][2], what="into a variable slot")
                     n += 1
@@ -1020,7 +1023,92 @@ def r7_slot_arrays_never_grow_on_the_frame(ctx):
     ctx.floor("growth sites of slot-owned script arrays", n, 1)
 
 
-RULES = [("C02-R1", r1_promote_before_store), ("C02-R2", r2_copy_before_free), ("C02-R4", r4_resets), ("C02-R5", r5_promotion_complete), ("C02-R6", r6_nothing_borrowed_is_held_across_recycling), ("C02-R7", r7_slot_arrays_never_grow_on_the_frame)]
+def _rehoming_gens(ctx, fn, recv_words, store_type_word, depth=0):
+    """Edges / nodes of fn after which the container named by `recv_words` is known to live on the persistent arena: the true
+    side of `ptr::eq(<recv>.allocator(), <persistent>)`, a store `*recv = <built on / cloned into persistent>`, or a call of a
+    runtime helper that itself establishes it on all its paths (one level)."""
+    gen_nodes, gen_edges = set(), set()
+    for S in sorted(fn.live):
+        t = fn.blocks[S]["t"]
+        if t["k"] != "switch":
+            continue
+        si = fn.switch_info(S)
+        neg = False
+        if si["kind"] == "un" and si.get("op") == "Not":
+            txt = sh(ne(fn.deep(si["a"])))
+            neg = True
+        elif si["kind"] == "call" and (si["callee"] or "").endswith("ptr::eq"):
+            txt = sh(ne(fn.deep(t["d"])))
+        else:
+            continue
+        if "eq(" not in txt or "allocator(" not in txt or not (PERSISTENT_RE.search(txt) or re.search(r"\bpersistent\b", txt)):
+            continue
+        if recv_words and not any(w in txt for w in recv_words):
+            continue
+        for lab, _j in fn.succ[S]:
+            if (lab != 0) != neg:
+                gen_edges.add((S, lab))
+    for b in sorted(fn.live):
+        for st in fn.blocks[b]["s"]:
+            lhs = st["lhs"]
+            if lhs["p"] == ["*"] and store_type_word in fn.locals[lhs["l"]]["ty"] and st["rv"]["k"] == "use":
+                txt = sh(ne(fn.deep(st["rv"]["a"])))
+                if (re.search(r"(with_capacity_in|new_in|clone_into)\(", txt) and (PERSISTENT_RE.search(txt) or re.search(r"\bpersistent\b", txt)) and "self.frame" not in txt) or "promote(" in txt:
+                    gen_nodes.add(b)
+        if depth == 0:
+            t = fn.blocks[b]["t"]
+            if t["k"] == "call":
+                cal = mir_norm(t.get("res") or t.get("callee"))
+                g = ctx.lib.fns.get(cal or "")
+                if g is not None and g.file == "src/runtime.rs" and g.id != fn.id and any(store_type_word in l["ty"] and "&mut" in l["ty"] for l in g.locals[1:g.argc + 1]):
+                    gn, ge = _rehoming_gens(ctx, g, [], store_type_word, depth + 1)
+                    if (gn or ge) and not (set(g.exits()) & g.reach([0], removed_nodes=gn, removed_edges=ge)):
+                        gen_nodes.add(b)
+    return gen_nodes, gen_edges
+
+
+def r7b_commands_never_grow_on_the_frame(ctx):
+    """The same for process commands: `c.arg(x)` / `c.env(k, v)` append to vectors inside the command.  A command received as a
+    parameter is the frame clone made when the argument was read; appending to it inside a loop body of the callee grows those
+    vectors above the iteration's frame mark.  Every call of a ProcessCommand method that can grow one of its vectors, on a
+    command reached through a slot, is reached only with the command on the persistent arena."""
+    growers = set()
+    for fid, g in ctx.lib.fns.items():
+        if fid.startswith("process::ProcessCommand::") and g.argc >= 1 and "&mut" in g.locals[1]["ty"]:
+            if any((c.callee or "").startswith("std::vec::Vec::") and (c.callee or "").split("::")[-1] in VEC_GROWERS for c in g.calls()):
+                growers.add(fid)
+    n = 0
+    for fn in runtime_bodies(ctx):
+        for c in fn.calls():
+            if c.callee not in growers:
+                continue
+            n += 1
+            ctx.touch(fn)
+            short = c.callee.split("::")[-1]
+            ordn = sum(1 for r in ctx.records if r["rule"] == ctx.rule and r["instance"].startswith("grow-command|%s|%s#" % (parent_fn(fn.id).split("::")[-1], short)))
+            key = "grow-command|%s|%s#%d" % (parent_fn(fn.id).split("::")[-1], short, ordn + 1)
+            # where the command reference comes from
+            e = fn.deep(c.args[0])
+            src_block = None
+            while True:
+                if e[0] in ("ref", "deref", "field", "as", "cast"):
+                    e = e[1]
+                elif e[0] == "call" and e[1].endswith("::branch") and e[2]:
+                    e = e[2][0]
+                else:
+                    break
+            if e[0] == "call" and len(e) > 3:
+                src_block = e[3]
+            start = fn.blocks[src_block]["t"].get("target") if src_block is not None else 0
+            gn, ge = _rehoming_gens(ctx, fn, ["command", "args", "env"], "ProcessCommand")
+            if c.block in fn.reach([start if start is not None else 0], removed_nodes=gn - {c.block}, removed_edges=ge):
+                ctx.bad(key, fn.where(c.block), "%s appends to a vector inside a command reached through a variable slot, and nothing on the way establishes that the command lives on the persistent arena (a command parameter is a frame clone): inside a loop body of a function the grown vector lies above the mark the iteration resets to (`do f(c, n) start jasi (..) start c.arg(..) end return c end`: abort in debug builds, segmentation fault otherwise)" % short)
+            else:
+                ctx.ok(key, fn.where(c.block), "reached only with the command on the persistent arena")
+    ctx.floor("growth sites of slot-owned process commands", n, 2)
+
+
+RULES = [("C02-R1", r1_promote_before_store), ("C02-R2", r2_copy_before_free), ("C02-R4", r4_resets), ("C02-R5", r5_promotion_complete), ("C02-R6", r6_nothing_borrowed_is_held_across_recycling), ("C02-R7", r7_slot_arrays_never_grow_on_the_frame), ("C02-R7b", r7b_commands_never_grow_on_the_frame)]
 
 EXPLANATION = (
     "The interpreter launders lifetimes with unsafe code, so the borrow checker is blind where this property lives; the rules "
@@ -1046,6 +1134,9 @@ EXPLANATION += (
 )
 EXPLANATION += (
     ' R4 also (= C11-R2): Arena::reset leaves the watermark at exactly its argument, and the debug wrapper forwards the argument unchanged.'
+)
+EXPLANATION += (
+    ' R7b: the same obligation as R7 for process commands - every call of a ProcessCommand method that can grow one of its vectors (found by its body), on a command reached through a slot, is reached only behind an allocator test / a store of a command cloned into the persistent arena, directly or through a runtime helper that establishes it on all its paths (D37 found and repaired).'
 )
 ASSUMPTIONS = ["values reach variables only through the sinks discovered by type in runtime.rs", "cfg(test)/wasm/windows code not analysed"]
 TRUSTED = ["rustc nightly MIR construction", "nsx exporter", "nsverif dominance / provenance (flow-insensitive over defs of a local)"]
